@@ -9,6 +9,7 @@ from . import grid
 from . import conv
 from . import cxeng
 from . import xstd
+from . import gdbpp
 
 HIST_PROPS = set(hist.PROPS)
 
@@ -101,6 +102,9 @@ class _C13:
 
 
 SIMPLE = {
+    "C20": (gdbpp, "exploration", ["gdb 13.1 with its Python API; g++ 12 -O0 -g and clang++ 14 -O0 -g -fstandalone-debug",
+                                   "Visual Studio cannot be run here: for natvis only the resolution of its member paths to fields carrying the right values is checked (through gdb), not rendering; `inline_capacity_v` is only resolvable in the clang build (g++ omits unused static members from the debug info) and `m_alloc` only where the allocator is stored as a member",
+                                   "elements are compared by value through the printer's children(), not by parsing printed text"]),
     "C17": (xstd, "exploration", ["g++ 12.2 (-std=c++11/14/17/20/23) and clang++ 14.0.6 (-std=c++11/17/20, thorough also 14), libstdc++ 12; C++20 builds also with -DGCH_DISABLE_CONCEPTS; clang++ -std=c++2b excluded by the is_constant_evaluated canary",
                                   "the interpreter, model and instrumented types are one C++11-clean source, so a digest difference is caused by the header (or the standard library) and not by the harness",
                                   "noexcept values that legitimately vary with is_always_equal availability are not part of the digest"]),
@@ -167,6 +171,7 @@ def claimed():
     out["C17"] = "xstd"
     out["C18"] = "grid+fault"
     out["C19"] = "grid"
+    out["C20"] = "gdbpp"
     return out
 
 
